@@ -22,7 +22,7 @@ ILI_Q = ['f1', 'f2']
 # Rf10 carries lexicon f:1 in another representation (other frame ids): one per history
 RES_T = [r for r in universe.RESOURCES if r != 'Rf10']
 REM_T = REM_Q + ['*:1', 'a*', 'ab', 'u:2 r:1', 'a:2', 'y', 'x', '*:1.0+b', 'a x:*']
-ILI_T = ['f1', 'f2', 'f3']
+ILI_T = ['f1', 'f2', 'f3', 'f4']
 
 
 def check_universe_file():
